@@ -131,6 +131,22 @@ def check(ck: Checker) -> None:
                        witness=g.fmt_path(wit) if wit else None,
                        construct=f"{d.text()} / {name}")
 
+    success_edge = reported_rule(ck, m, "C04.reported")
+
+    # -------------------------------------------------------------- onerror
+    _check_adder(ck, m, "C04.onerror")
+
+    # ---------------------------------------------------------------- index
+    _check_index(ck, m, success_edge)
+
+    # ----------------------------------------------------------------- push
+    _check_closed_requests(ck, "C04.push")
+
+
+def reported_rule(ck: Checker, m: TransferModel, rule: str):
+    """An iteration that does not successfully send the directory object records it as failed."""
+    prog = ck.prog
+    g, move = m.g, m.move
     # ------------------------------------------------------------- reported
     loopvar = m.head.ast.target.id if isinstance(m.head.ast.target, ast.Name) else "?"
     rec_nodes = set()
@@ -152,20 +168,13 @@ def check(ck: Checker) -> None:
     starts = [dd for lab, dd in m.head.succ if lab == "T"]
     reached = g.reach(starts, skip_node=lambda n: n.id in rec_nodes, skip_edge=success_edge)
     bad = m.head.id in reached
-    ck.require(not bad, "C04.reported", move, m.head,
+    ck.require(not bad, rule, move, m.head,
                "every iteration that does not successfully send the directory object records it as failed",
                "an iteration can end with the directory object neither sent nor recorded in the failure set (it would be reported as transferred)",
                witness=g.fmt_path(g.path_to(reached, m.head.id)) if bad else None,
                construct=f"for {loopvar} in ... / withheld => failed")
 
-    # -------------------------------------------------------------- onerror
-    _check_adder(ck, m, "C04.onerror")
-
-    # ---------------------------------------------------------------- index
-    _check_index(ck, m, success_edge)
-
-    # ----------------------------------------------------------------- push
-    _check_closed_requests(ck, "C04.push")
+    return success_edge
 
 
 def _check_adder(ck: Checker, m: TransferModel, rule: str) -> None:
